@@ -67,6 +67,26 @@ class UFWcs:
         return [[SN(VxCore(a, d) + origin), SN(VyCore(a, d) + origin)]]
 
 
+def mk_helper(wh, w):
+    """a helper on the WCS stand-in, built by the real constructor so that whatever state it sets up exists; falls back to a
+    bare object if the constructor wants more than a stand-in can give"""
+    try:
+        # a psf file name keeps the constructor from converting the beam at the reference pixel (the stand-in has no beam);
+        # the name is never opened
+        helper = wh.WCSHelper(w, None, (-0.001, 0.001), (100.0, 80.0), 'unused_psf.fits')
+    except Exception:
+        helper = wh.WCSHelper.__new__(wh.WCSHelper)
+    if hasattr(w, 'calls'):
+        del w.calls[:]
+    helper.wcs = w
+    helper.ra_dec_order = True
+    helper.refpix = (100.0, 80.0)
+    helper.pixscale = (-0.001, 0.001)
+    helper.beam = None
+    helper.psf_file = None
+    return helper
+
+
 def h_two_helpers(wh):
     """two images in one process with the same reference pixel / pixel scale / beam but different pointings:
     each helper answers from its OWN WCS (results depend on nothing else)"""
@@ -116,14 +136,8 @@ def h_two_helpers(wh):
 
 def h_points(wh):
     def h(c):
-        helper = wh.WCSHelper.__new__(wh.WCSHelper)
         w = UFWcs()
-        helper.wcs = w
-        helper.ra_dec_order = True
-        helper.refpix = (100.0, 80.0)
-        helper.pixscale = (-0.001, 0.001)
-        helper.beam = None
-        helper.psf_file = None
+        helper = mk_helper(wh, w)
         r, cc = real('row'), real('col')
         sky = helper.pix2sky((r, cc))
         # FITS convention: (row, col) 1-based <-> W_fits(x=col, y=row) = W_0(col-1, row-1)
@@ -136,6 +150,13 @@ def h_points(wh):
         ra, dec = real('ra'), real('dec')
         p = helper.sky2pix((ra, dec))
         c.oblige('points:sky2pix returns (row, col) = (y, x) of the FITS pixel', z3.And(core.lift(p[0]) == Vy(ra.e, dec.e) + 1, core.lift(p[1]) == Vx(ra.e, dec.e) + 1))
+        # the answers do not depend on what the helper was asked before: other (arbitrary) arguments on the same helper
+        r2, c2 = real('row2'), real('col2')
+        sky2 = helper.pix2sky((r2, c2))
+        c.oblige('points:a later pix2sky on the same helper answers for ITS pixel', z3.And(core.lift(sky2[0]) == Wra(c2.e - 1, r2.e - 1), core.lift(sky2[1]) == Wdec(c2.e - 1, r2.e - 1)))
+        ra2, dec2 = real('ra2'), real('dec2')
+        p2 = helper.sky2pix([ra2, dec2])
+        c.oblige('points:a later sky2pix on the same helper answers for ITS position', z3.And(core.lift(p2[0]) == Vy(ra2.e, dec2.e) + 1, core.lift(p2[1]) == Vx(ra2.e, dec2.e) + 1))
         return dict()
     return h
 
@@ -208,13 +229,7 @@ def h_vec(wh):
     def h(c):
         fl = Flat(c)
         install_flat(wh, fl)
-        helper = wh.WCSHelper.__new__(wh.WCSHelper)
-        helper.wcs = fl
-        helper.ra_dec_order = True
-        helper.refpix = (100.0, 80.0)
-        helper.pixscale = (-0.001, 0.001)
-        helper.beam = None
-        helper.psf_file = None
+        helper = mk_helper(wh, fl)
         x, y, r = real('x'), real('y'), real('r')
         th = angle_deg('th')
         c.assume(r.e > 0)
@@ -241,13 +256,7 @@ def h_ellipse(wh):
     def h(c):
         fl = Flat(c)
         install_flat(wh, fl)
-        helper = wh.WCSHelper.__new__(wh.WCSHelper)
-        helper.wcs = fl
-        helper.ra_dec_order = True
-        helper.refpix = (100.0, 80.0)
-        helper.pixscale = (-0.001, 0.001)
-        helper.beam = None
-        helper.psf_file = None
+        helper = mk_helper(wh, fl)
         x, y, sx, sy = real('x'), real('y'), real('sx'), real('sy')
         th = angle_deg('th')
         c.assume(sx.e > 0)
@@ -269,13 +278,7 @@ def h_psf(wh):
     def h(c):
         fl = Flat(c)
         install_flat(wh, fl)
-        helper = wh.WCSHelper.__new__(wh.WCSHelper)
-        helper.wcs = fl
-        helper.ra_dec_order = True
-        helper.refpix = (100.0, 80.0)
-        helper.pixscale = (-0.001, 0.001)
-        helper.beam = None
-        helper.psf_file = None
+        helper = mk_helper(wh, fl)
         helper.psf_file = None
         pa_, pb_ = real('sx'), real('sy')
         pt = angle_deg('th')
@@ -407,6 +410,49 @@ def real_oracle(seed=0, n=40):
         dpa = abs(((pa2 - pa + 90) % 180) - 90)
         if abs(a2 - a) > 2e-3 * a or abs(b2 - b) > 2e-3 * b or dpa > 0.2:
             return True, 'sky-ellipse-roundtrip', 'sky ellipse (%.5f, %.5f, %.1f) at pixel (%.0f, %.0f) of a 4000^2 %s image came back as (%.5f, %.5f, %.2f)' % (a, b, pa, r0, c0, proj, a2, b2, pa2)
+    return False, None, None
+
+
+def history_oracle():
+    """one helper, many conversions: pixels a fraction of a milli-pixel apart (a centroid refined in small steps), and position
+    arrays that the caller changes in place between calls; every answer against astropy's WCS for the argument of THAT call"""
+    import numpy as np
+    from astropy.io import fits
+    from astropy.wcs import WCS
+    wh = loader.real('wcs_helpers')
+    hdr = fits.Header()
+    hdr['NAXIS'] = 2
+    hdr['NAXIS1'], hdr['NAXIS2'] = 200, 160
+    hdr['CTYPE1'], hdr['CTYPE2'] = 'RA---SIN', 'DEC--SIN'
+    hdr['CRVAL1'], hdr['CRVAL2'] = 150.0, -30.0
+    hdr['CRPIX1'], hdr['CRPIX2'] = 100.0, 80.0
+    hdr['CDELT1'], hdr['CDELT2'] = -8.0 / 3600, 8.0 / 3600
+    hdr['BMAJ'], hdr['BMIN'], hdr['BPA'] = 32.0 / 3600, 24.0 / 3600, 20.0
+    helper = wh.WCSHelper.from_header(hdr)
+    w = WCS(hdr, naxis=2)
+    r0, c0 = 61.3137, 88.7249
+    for k, step in enumerate((0.0, 2.3e-4, 4.1e-4, -3.7e-4, 1e-5, 7.7e-3, -1e-6)):
+        r, cc = r0 + step, c0 - 0.7 * step
+        ra, dec = helper.pix2sky((r, cc))
+        ref = w.all_pix2world([[cc, r]], 1)[0]
+        if abs(ra - ref[0]) * 3600 > 1e-6 * 8 or abs(dec - ref[1]) * 3600 > 1e-6 * 8:
+            return True, 'pix2sky-history', 'call %d on one helper: pix2sky((%.7f, %.7f)) is off by (%.3g, %.3g) arcsec from the FITS WCS (8 arcsec pixels; earlier calls were a few 1e-4 pixel away)' % (k + 1, r, cc, (ra - ref[0]) * 3600, (dec - ref[1]) * 3600)
+        back = helper.sky2pix((ra, dec))
+        if abs(back[0] - r) > 1e-6 or abs(back[1] - cc) > 1e-6:
+            return True, 'roundtrip-history', 'call %d on one helper: pixel -> sky -> pixel moved (%.7f, %.7f) by (%.3g, %.3g) pixel' % (k + 1, r, cc, back[0] - r, back[1] - cc)
+    for kind in ('ndarray', 'list'):
+        sky = np.array(helper.pix2sky((70.0, 95.0)), dtype=float)
+        pos = sky if kind == 'ndarray' else list(sky)
+        helper.sky2pix(pos)
+        pos[0] += 0.05
+        pos[1] -= 0.03
+        got = helper.sky2pix(pos)
+        ref = w.all_world2pix([[pos[0], pos[1]]], 1)[0]
+        if abs(got[0] - ref[1]) > 1e-6 or abs(got[1] - ref[0]) > 1e-6:
+            return True, 'sky2pix-history', 'sky2pix on a %s changed in place since the previous call answers (%.3f, %.3f), the FITS WCS gives (%.3f, %.3f)' % (kind, got[0], got[1], ref[1], ref[0])
+        x, y, sx, sy, th = helper.sky2pix_ellipse(pos, 0.02, 0.01, 30.0)
+        if abs(x - ref[1]) > 1e-6 or abs(y - ref[0]) > 1e-6:
+            return True, 'sky2pix-history', 'sky2pix_ellipse at a %s changed in place is centred on (%.3f, %.3f), the FITS WCS gives (%.3f, %.3f)' % (kind, x, y, ref[1], ref[0])
     return False, None, None
 
 
@@ -563,6 +609,10 @@ def run(rep):
     rep.validated_runs(1)
     if bad:
         rep.finding('C16/K-points/%s' % cls, dict(seed=rep.seed, two=True), detail, kernel='K-points')
+    bad, cls, detail = history_oracle()
+    rep.validated_runs(1)
+    if bad:
+        rep.finding('C16/K-points/%s' % cls, dict(history=True), detail, kernel='K-points')
     nor = 600 if rep.tier == 'thorough' else 40
     bad, cls, detail = real_oracle(rep.seed, nor)
     rep.validated_runs(nor)
@@ -576,6 +626,8 @@ def handle(rep, res, kname, two=False):
             rep.count(ob['result'], ob['name'])
             if ob['result'] == 'sat':
                 bad, cls, detail = two_images_oracle() if two else real_oracle(11, 60)
+                if not bad and 'later' in ob['name']:
+                    bad, cls, detail = history_oracle()
                 rep.finding('C16/%s/%s' % (kname, cls or ob['name']), dict(seed=11, obligation=ob['name'], two=two), detail or ob['name'], reproduced=bad)
         if r['status'] != 'ok':
             continue
@@ -585,6 +637,9 @@ def handle(rep, res, kname, two=False):
 def replay(w):
     if w['witness'].get('psfmap'):
         bad, cls, detail = psfmap_oracle()
+        return bad, '%s: %s' % (cls, detail)
+    if w['witness'].get('history'):
+        bad, cls, detail = history_oracle()
         return bad, '%s: %s' % (cls, detail)
     if w['witness'].get('two'):
         bad, cls, detail = two_images_oracle()
